@@ -770,7 +770,7 @@ func gen(o *kit.Out, r *kit.Rand, tier string) {
 	}
 	genBoundary(o, r.Fork(), tier)
 	if tier == "thorough" {
-		genRandom(o, r.Fork(), 16000, 16000, 8000)
+		genRandom(o, r.Fork(), 9000, 9000, 4500)
 	} else {
 		genRandom(o, r.Fork(), 1500, 1500, 700)
 	}
